@@ -31,12 +31,16 @@ class Scope(list[Any]):
     """List-like scope bindings with dict-style access by name."""
 
     owner: "NixExpression | None"
+    # True for the scope of a `with` environment: such names are only consulted
+    # when no enclosing let / rec set / function formal binds the identifier.
+    is_with_env: bool
 
     def __init__(
         self, items: Iterable[Any] = (), *, owner: "NixExpression | None" = None
     ) -> None:
         super().__init__(items)
         self.owner: "NixExpression | None" = owner
+        self.is_with_env = False
 
     def _find_binding_index(self, key: str) -> int | None:
         from nix_manipulator.expressions.binding import Binding
